@@ -22,10 +22,11 @@ RULE = ("cases = word streams of data packets (header + DPP) with payload length
         "turn; every case is also simulated without its invalid words and the two verdict/payload sequences are compared")
 ASSUMPTIONS = ["payload length field 0..1024 (legal USB3 DPP); the word stream is the aligned, descrambled "
                "receive stream: 4 symbols per word with per-symbol ctrl flags and a valid flag"]
-PARTIAL = ("lengths > 1024 (illegal) are outside the statement's wording but not outside the theorems (they hold for every "
-           "11-bit length field); `good iff CRCs valid` is stated per packet (from any history from reset up to the payload "
-           "start, then the payload words + CRC word with invalid words interleaved), not as one closed formula over a "
-           "multi-packet stream")
+PARTIAL = ("independence of invalid words is a theorem inside the payload (independent_of_invalid_words) and along the header "
+           "phase of a header with valid CRCs (hdr_path_stutters, Lemmas/C36RoundTripGaps.lean); for a header with a BAD CRC it "
+           "does not hold as a blanket statement: CHECK_HEADER rejects without waiting for a valid word, so an invalid word "
+           "after DWORD 3 decides which following word is swallowed (notes/C40.md, observation; in legal traffic that word is "
+           "the rejected header's own DPPSTART, and such a header never gets a verdict: verdict_implies_header_crcs_valid)")
 
 KINDS = [(50, "good"), (8, "crc32-bit"), (6, "crc32-rand"), (6, "crc16"), (6, "crc5"), (4, "type"),
          (5, "k-first"), (5, "k-last"), (4, "k-mid"), (4, "no-dpp"), (2, "crc32-zero")]
